@@ -50,6 +50,11 @@ func (ap *aacPacketizer) prepareAsc() (err error) {
 }
 
 func (ap *aacPacketizer) Packetize(frame *codec.Frame) error {
+	if ap.audioSps == nil { // the AAC config could not be decoded (yet)
+		if err := ap.prepareAsc(); err != nil {
+			return err
+		}
+	}
 	pts := frame.Pts * 90000 / int64(time.Second) // 90000Hz
 
 	// set fields
